@@ -75,3 +75,27 @@ func RSAWithExponent(e int) *rsa.PrivateKey {
 	cache[-e] = k
 	return k
 }
+
+// RSAMultiPrime returns the fixed 2048-bit RSA key with three prime factors.
+func RSAMultiPrime() *rsa.PrivateKey {
+	mu.Lock()
+	defer mu.Unlock()
+	if k, ok := cache[-1]; ok {
+		return k
+	}
+	b, err := files.ReadFile("rsa2048mp3.pem")
+	if err != nil {
+		panic(err)
+	}
+	blk, _ := pem.Decode(b)
+	k, err := x509.ParsePKCS1PrivateKey(blk.Bytes)
+	if err != nil {
+		panic(err)
+	}
+	if len(k.Primes) != 3 {
+		panic("testkeys: rsa2048mp3.pem is not a three-prime key")
+	}
+	k.Precompute()
+	cache[-1] = k
+	return k
+}
